@@ -162,10 +162,11 @@ Definition badwn_C09 := badwn_mon mon_C09.
    violation are those of other names: the whole history up to the violation counts *)
 Definition badwn_C12 (ts : list trace) : list nat := badw_C12 ts.
 
-(* ---- C03, oracle beyond the theorem: mon_C03 judges a shutdown by the snapshot the implementation reports
+(* ---- C03, second oracle: mon_C03 judges a shutdown by the snapshot the implementation reports
    (EShutdownOrder); this test-level monitor judges it by the observer's own facts: when a ShutDownProject call
    ends NO command at all is alive and NO name is reported running, whatever the snapshot said (the registry lock is
-   held for the whole call, so nothing can have been registered and launched meanwhile).  No theorem covers it. *)
+   held for the whole call, so nothing can have been registered and launched meanwhile).  Theorem: C03x_partial
+   (Sup/RelC03x.v, Props/C03.v) for every accepted history outside the windows commit/sdlag/dup/zombie. *)
 Definition mon_C03x (cs : amap pconf) (o : obs) (te : tid * event) : bool :=
   match snd te with
   | EShutdownEnd =>
